@@ -48,6 +48,8 @@ LxTab == [
   f |-> Lexeme(Name("f", TRUE), One("f")), Sin |-> Lexeme(Name("Sin", TRUE), <<"S", "i", "n">>),
   si |-> Lexeme(Name("si", TRUE), <<"s", "i">>),
   u |-> Lexeme(Name("u", TRUE), One("u")), v |-> Lexeme(Name("v", TRUE), One("v")),
+  I |-> Lexeme(Name("I", TRUE), One("I")), vc |-> Lexeme(Name("vc", TRUE), <<"v", "c">>),
+  infty |-> Lexeme(Name("infty", TRUE), <<"i", "n", "f", "t", "y">>),
   k |-> Lexeme(Name("k", TRUE), One("k")), m |-> Lexeme(Name("m", TRUE), One("m")), q |-> Lexeme(Name("q", TRUE), One("q")) ]
 Ids == DOMAIN LxTab
 RECURSIVE Join(_, _)
@@ -68,7 +70,7 @@ ASSUME LET h == <<"a">> IN
 Baseline == [fmode |-> "off", req |-> "none", forb |-> "none", instr |-> "none", userf |-> TRUE, consts |-> "userc",
              numb |-> TRUE, metric |-> FALSE, ans |-> "partial", route |-> "direct"]
 DimDom == [fmode : {"off", "bsin", "bsincos", "wcos", "wsinh", "wnone"}, req : {"none", "cos", "f"},
-           forb : {"none", "times0", "plus2", "sin"}, instr : {"none", "z", "c", "pi"}, userf : BOOLEAN,
+           forb : {"none", "times0", "plus2", "sin"}, instr : {"none", "z", "c", "pi", "a1", "I", "vc", "infty"}, userf : BOOLEAN,
            consts : {"userc", "std", "delpi"}, numb : BOOLEAN, metric : BOOLEAN, ans : {"plain", "exempt", "partial"},
            route : IF Part = "list" THEN {"direct", "sampler", "chain", "mdirect", "msampler", "mchain"} ELSE {"direct"}]
 (* route (ordered lists only): how the author's configuration of the second box reaches the first input --
@@ -76,6 +78,11 @@ DimDom == [fmode : {"off", "bsin", "bsincos", "wcos", "wsinh", "wnone"}, req : {
    "sampler"  the answer mentions the instructor variable u only, u has the dependent sampling set  sibling_1 * 1;
    "chain"    u depends on v (v - 1), v depends on sibling_1 (sibling_1 + 1), both instructor variables;
    "m..."     the same with a MatrixGrader as the subgrader of the second box. *)
+(* instr: the instructor-only name ranges over every kind of name a grader class can put into the student's scope --
+   "z" a configured variable, "c" a user constant, "pi" a default constant, "a1" the numbered-variable instance a_{1},
+   and the class-specific names: "I" MatrixGrader's identity (identity_dim, added after the common construction),
+   "vc" a user constant that is an array, "infty" the infinity of summations (class-level) and of allow_inf. *)
+InstrName(d) == IF d.instr = "a1" THEN "a_{1}" ELSE d.instr
 UsesSampler(d) == d.route \in {"sampler", "chain", "msampler", "mchain"}
 UsesChain(d) == d.route \in {"chain", "mchain"}
 Weight(d) == Cardinality({fld \in DOMAIN Baseline : d[fld] # Baseline[fld]})
@@ -88,6 +95,9 @@ ValidDims(d) ==
   /\ ~HasVars => (d.numb = FALSE /\ d.instr # "z")
   /\ Part # "list" => d.route = "direct"
   /\ Part = "sum" => d.ans # "partial"                        \* a summation has one answer
+  /\ d.instr \in {"I", "vc"} => Part = "matrix"
+  /\ d.instr = "a1" => (HasVars /\ d.numb)
+  /\ d.instr = "infty" => Part \in {"sum", "formula", "numerical"}
   /\ d.instr = "c" => d.consts = "userc"                      \* an instructor constant must exist
   /\ (d.instr = "pi" => d.consts # "delpi")
 Dims == {d \in DimDom : ValidDims(d)}
@@ -96,7 +106,7 @@ Val(n_, d_) == [k |-> "v", q |-> <<n_, d_>>]
 \* values at the single sampling point (integers, pairwise different, so that no accidental equality arises)
 ValTab == ( "x" :> Val(2, 1) @@ "y" :> Val(5, 1) @@ "z" :> Val(3, 1) @@ "a" :> Val(7, 1) @@ "c" :> Val(11, 1)
          @@ "pi" :> FIN @@ "e" :> FIN @@ "i" :> NPV @@ "j" :> NPV @@ "infty" :> NPV
-         @@ "sibling_1" :> Val(12, 1) @@ "sibling_2" :> NPV )
+         @@ "sibling_1" :> Val(12, 1) @@ "sibling_2" :> NPV @@ "I" :> NPV @@ "vc" :> NPV )
 Forb == ( "none" :> {} @@ "times0" :> {<<"*", "0">>} @@ "plus2" :> {<<"+", "SP", "2">>} @@ "sin" :> {<<"s", "i", "n">>} )
 
 \* author's answers (token ids), per kind
@@ -132,8 +142,10 @@ CfgOf(d) ==
    vars |-> (IF HasVars THEN {"x", "y", "z"} ELSE {})
             \cup (IF UsesSampler(d) THEN {"u"} ELSE {}) \cup (IF UsesChain(d) THEN {"v"} ELSE {}),
    consts |-> ({"pi", "e", "i", "j"} \ (IF d.consts = "delpi" THEN {"pi"} ELSE {}))
-              \cup (IF d.consts = "userc" THEN {"c"} ELSE {}) \cup (IF Part = "sum" THEN {"infty"} ELSE {}),
-   instr |-> (IF d.instr = "none" THEN {} ELSE {d.instr})
+              \cup (IF d.consts = "userc" THEN {"c"} ELSE {})
+              \cup (IF Part = "sum" \/ d.instr = "infty" THEN {"infty"} ELSE {})      \* allow_inf only with instr = "infty"
+              \cup (IF Part = "matrix" THEN {"I", "vc"} ELSE {}),                  \* identity_dim = 2, vc = [1, 2]
+   instr |-> (IF d.instr = "none" THEN {} ELSE {InstrName(d)})
              \cup (IF UsesSampler(d) THEN {"u"} ELSE {}) \cup (IF UsesChain(d) THEN {"v"} ELSE {}),
    sibs |-> IF Part = "list" THEN {"sibling_1", "sibling_2"} ELSE {},
    deps |-> IF UsesChain(d) THEN {[s |-> "v", box |-> Box(<<"sib1", "pl", "n1">>, "tight")],
@@ -201,6 +213,8 @@ NRRich == NRQuick \cup
             <<"A1", "var">>, <<"sib2", "var">>, <<"q", "suf">>, <<"pct", "suf">>, <<"z", "fn0">>, <<"n", "var">> }
 NR == (IF Rich THEN NRRich ELSE NRQuick)
       \cup (IF Part = "list" THEN {<<"u", "var">>, <<"sib2", "var">>, <<"sib1", "fnx">>} ELSE {})
+      \cup (IF Part = "matrix" THEN {<<"I", "var">>, <<"vc", "var">>} ELSE {})
+      \cup (IF Part \in {"sum", "formula", "numerical"} THEN {<<"infty", "var">>} ELSE {})
 Forms == IF Rich THEN {"mul0", "0mul", "cancel", "pow0", "bare"} ELSE {"mul0", "cancel"}
 Positions == (IF Rich THEN {"add", "front", "expo", "arg", "one"} ELSE {"add", "expo", "arg"})
              \cup (IF Part = "matrix" THEN {"arr"} ELSE {}) \cup (IF Part = "sum" THEN {"lower"} ELSE {})
